@@ -31,9 +31,9 @@ static const uint64_t kBases[] = {0x10000ull, 0x7FFFF000ull, 0x80000000ull, 0xFF
 struct Site { int kind; int addr_type; uint32_t sec; size_t start, end; uint64_t target; bool is_label; int imm_size; };
 
 struct Case {
-  int arch; uint64_t base; bool known_base; std::vector<Item> items; bool extra_section;
+  int arch; uint64_t base; bool known_base; std::vector<Item> items; bool extra_section; int label_mode = 0;   // 0 text/after 1 text/before 2 .data/after 3 .data/before
   std::string str() const {
-    char b[128]; snprintf(b, sizeof b, "arch=%s base=%llu known=%d extra=%d items=", arch_name(arch), (unsigned long long)base, known_base, extra_section);
+    char b[128]; snprintf(b, sizeof b, "arch=%s base=%llu known=%d extra=%d label=%d items=", arch_name(arch), (unsigned long long)base, known_base, extra_section, label_mode);
     std::string s = b;
     for (auto& it : items) s += std::to_string(it.kind) + ":" + std::to_string(it.addr_type) + ":" + std::to_string(it.tsel) + ",";
     s += " #";
@@ -65,6 +65,18 @@ static bool build(const Case& cs, Built& b, uint64_t init_base) {
   b.L = b.a->new_label();
   uint8_t nops[16]; memset(nops, cs.arch == AA64 ? 0x1F : 0x90, sizeof nops);
   if (cs.arch == AA64) { uint32_t nop = 0xD503201F; for (int i = 0; i < 4; i++) memcpy(nops + 4 * i, &nop, 4); }
+  Section* data = nullptr;
+  if (cs.label_mode >= 2) { if (b.code.new_section(Out(data), ".data", SIZE_MAX, SectionFlags::kNone, 16, 1) != Error::kOk) FAIL("new_section", "new_section failed"); }
+  auto bind_label = [&]() -> bool {
+    if (data) b.a->section(data);
+    b.a->embed(nops, 8);
+    b.label_off = b.a->current_section()->buffer_size(); b.label_sec = b.a->current_section()->section_id();
+    bool ok = b.a->bind(b.L) == Error::kOk;
+    b.a->embed(nops, 8);
+    if (data) b.a->section(b.code.text_section());
+    return ok;
+  };
+  if (cs.label_mode == 1 || cs.label_mode == 3) { if (!bind_label()) FAIL("bind", "bind failed"); }
   b.a->embed(nops, cs.arch == AA64 ? 4 : 3);
   for (auto& it : cs.items) {
     Site s; s.kind = it.kind; s.addr_type = it.addr_type; s.sec = 0; s.start = b.code.text_section()->buffer_size(); s.is_label = false; s.imm_size = 0;
@@ -102,9 +114,7 @@ static bool build(const Case& cs, Built& b, uint64_t init_base) {
     b.sites.push_back(s);
   }
   b.a->embed(nops, cs.arch == AA64 ? 8 : 5);
-  b.label_off = b.code.text_section()->buffer_size(); b.label_sec = 0;
-  if (b.a->bind(b.L) != Error::kOk) FAIL("bind", "bind failed");
-  b.a->embed(nops, 8);
+  if (cs.label_mode == 0 || cs.label_mode == 2) { if (!bind_label()) FAIL("bind", "bind failed"); }
   if (cs.extra_section) {
     // a user section ordered after the address table (same order value, higher id)
     if (b.code.new_section(Out(b.extra), ".after", SIZE_MAX, SectionFlags::kNone, 16, INT_MAX) != Error::kOk) FAIL("new_section", "new_section failed");
@@ -266,7 +276,7 @@ static Case parse_case(const std::string& t) {
   for (auto& line : vh::split(t, '\n')) {
     if (line.rfind("arch=", 0) != 0) continue;
     char an[8]; unsigned long long base; int known, extra; char items[256] = {0};
-    sscanf(line.c_str(), "arch=%7s base=%llu known=%d extra=%d items=%255s", an, &base, &known, &extra, items);
+    int lm = 0; sscanf(line.c_str(), "arch=%7s base=%llu known=%d extra=%d label=%d items=%255s", an, &base, &known, &extra, &lm, items); cs.label_mode = lm;
     cs.arch = !strcmp(an, "x64") ? AX64 : !strcmp(an, "x86") ? AX86 : AA64; cs.base = base; cs.known_base = known; cs.extra_section = extra;
     for (auto& x : vh::split(items, ',')) if (!x.empty()) { Item it; if (sscanf(x.c_str(), "%d:%d:%d", &it.kind, &it.addr_type, &it.tsel) == 3) cs.items.push_back(it); }
   }
@@ -292,12 +302,12 @@ int main(int argc, char** argv) {
       for (int known = 0; known < 2; known++) for (int extra = 0; extra < 2; extra++) {
         // all single items; pairs: quick = first item from a reduced set, thorough = all pairs
         for (size_t i = 0; i < al.size(); i++) {
-          if (c.mine(idx++)) { Case cs{arch, base, (bool)known, {al[i]}, (bool)extra}; if (!run_case(cs)) report(cs); else c.sample(cs.str(), 8); }
+          for (int lm = 0; lm < 4; lm++) if (c.mine(idx++)) { Case cs{arch, base, (bool)known, {al[i]}, (bool)extra}; cs.label_mode = lm; if (!run_case(cs)) report(cs); else c.sample(cs.str(), 8); }
           if (max_items < 2) continue;
           for (size_t j = 0; j < al.size(); j++) {
             if (c.mine(idx++)) {
               if ((idx & 255) == 0 && c.out_of_time()) goto done;
-              Case cs{arch, base, (bool)known, {al[i], al[j]}, (bool)extra};
+              Case cs{arch, base, (bool)known, {al[i], al[j]}, (bool)extra}; cs.label_mode = int((i + 3 * j) & 3);
               if (!run_case(cs)) report(cs);
             }
             if (!c.thorough()) continue;
